@@ -23,6 +23,18 @@ CHECKS = {
              'running interpreter; reference driver ref/tokenizer_ref.py and grammar '
              'ref/css_tokens.py (written from CSS 2.1 4.1 and the documented contract).',
         design='3 C05'),
+    'C09': dict(
+        text='Inductive step from an arbitrary valid state: the rule list holds up to N rule objects '
+             'whose kind codes are z3 variables constrained only by the invariant the property '
+             'states; one edit (insertRule / add / deleteRule by index or object / encoding / '
+             'namespace mapping set / delete) with symbolic arguments runs on the real CSSStyleSheet '
+             'code; the solver proves the invariant, parent links and unchanged-on-rejection on every '
+             'path. Because the pre-state is arbitrary within the invariant this covers edit histories '
+             'of any length over lists of at most N rules (N=4 quick, 6 thorough).',
+        note='Trusted: z3; rule objects are minimal CSSRule subclasses exposing exactly the attributes '
+             'the sheet code reads (stub fidelity listed in the evidence); counterexamples are replayed '
+             'with real rule objects from an empty sheet through public calls (history found by search).',
+        design='3 C09'),
 }
 
 NA_REASON = 'check not built yet (build in progress; DESIGN.md section 3 describes the planned harness)'
